@@ -628,8 +628,12 @@ class BzrUploader:
                     # uploading, so a changed executable bit needs it too.
                     self.upload_file(change.path[0], change.path[1])
                 self.rename_remote(change.path[0], change.path[1])
-            self.finish_renames()
+            # The renamed entries are out of the way under their temporary
+            # names: remove the directories that could not be removed before
+            # giving the entries their new names, which may be those of the
+            # removed directories.
             self.finish_deletions()
+            self.finish_renames()
 
             for change in changes.kind_changed:
                 if self.is_ignored(change.path[1]):
